@@ -1,9 +1,41 @@
 (* C12 — Inspecting parsed data never panics.
    What the model can carry: the decision logic of the observers. After the F13 repair Display / Debug render lossily and have
    no failure branch; the conversions that can fail (TXT -> String, long_attributes, CharacterString -> String) fail exactly on
-   invalid UTF-8 and return an error. The rendering itself (from_utf8_lossy) is not modelled; detection of a reintroduced
-   panic comes from the OBSERVE slice. Property theorems only. *)
-Require Import SD.Base SD.Name SD.NameProofs SD.RData SD.Packet SD.PacketProofs SD.TextApi SD.OwnedProofs.
+   invalid UTF-8 and return an error. The rendering itself (String::from_utf8_lossy, the maximal-subpart replacement of
+   core::str::lossy) is modelled in Lossy.v: it is a total function, always yields well-formed UTF-8, leaves well-formed
+   text untouched and is at most three times as long as its input; the SHOW slice compares it with what Display writes.
+   Debug (derive output) is not modelled; detection of a reintroduced panic there comes from the OBSERVE slice.
+   Property theorems only. *)
+Require Import SD.Base SD.Name SD.NameProofs SD.RData SD.Packet SD.PacketProofs SD.TextApi SD.OwnedProofs SD.Lossy SD.LossyProofs.
+
+(* Display for Label / CharacterString on ANY bytes: a value (no failure branch), and that value is text *)
+Theorem C12_display_is_text : forall b, valid_utf8 (display_bytes b) = true.
+Proof. exact lossy_valid. Qed.
+Check C12_display_is_text : forall b, valid_utf8 (display_bytes b) = true.
+Print Assumptions C12_display_is_text.
+(* nothing that was text is altered; what was not text is never passed through unchanged *)
+Theorem C12_display_faithful : forall b, (valid_utf8 b = true -> display_bytes b = b) /\ (valid_utf8 b = false -> display_bytes b <> b).
+Proof. intros b. split; [apply lossy_id | apply lossy_changes_invalid]. Qed.
+Check C12_display_faithful : forall b, (valid_utf8 b = true -> display_bytes b = b) /\ (valid_utf8 b = false -> display_bytes b <> b).
+Print Assumptions C12_display_faithful.
+Theorem C12_display_bounded : forall b, (length (display_bytes b) <= 3 * length b)%nat.
+Proof. exact lossy_length. Qed.
+Print Assumptions C12_display_bounded.
+(* Display for Name on ANY labels *)
+Theorem C12_name_display_is_text : forall ls, valid_utf8 (display_name ls) = true.
+Proof. exact display_name_valid. Qed.
+Check C12_name_display_is_text : forall ls, valid_utf8 (display_name ls) = true.
+Print Assumptions C12_name_display_is_text.
+Theorem C12_name_display_faithful : forall ls, Forall (fun l => valid_utf8 l = true) ls -> display_name ls = join_dots ls.
+Proof. exact display_name_text. Qed.
+Print Assumptions C12_name_display_faithful.
+(* a lone continuation byte, a truncated three-byte sequence followed by ASCII, an overlong, a surrogate: one U+FFFD per
+   maximal ill-formed subpart *)
+Example C12_display_samples :
+  display_bytes [x80] = REPL /\ display_bytes [xe2; x82; x41] = REPL ++ [x41] /\
+  display_bytes [xc0; xaf] = REPL ++ REPL /\ display_bytes [xed; xa0; x80] = REPL ++ REPL ++ REPL /\
+  display_bytes [xf0; x9f; x92; x41] = REPL ++ [x41] /\ display_name [[x61; xff]; [x62]] = [x61] ++ REPL ++ [x2e; x62].
+Proof. vm_compute. repeat split. Qed.
 
 Theorem C12_txt_to_string : forall strs,
   (exists s, text_of_txt strs = Ok s /\ valid_utf8 s = true) \/ (exists e, text_of_txt strs = Err e /\ valid_utf8 (List.concat strs) = false).
